@@ -1,6 +1,7 @@
 import ReplicatProofs.Lemmas.SchedSnap
 import ReplicatProofs.Lemmas.SchedLocks
 import ReplicatProofs.Lemmas.SchedFin
+import ReplicatProofs.Lemmas.SchedLife
 import ReplicatProofs.Properties.C01
 /-!
 # C09 — snapshot and restore do not depend on thread or I/O scheduling
@@ -26,6 +27,8 @@ theorem slots_invariant (n : Nat) (evs : List SlotEv) (σ : Slots)
     (h : run (Slots.step Gen.slotReleaseInFinally) (Slots.init n) evs = some σ) :
     (σ.free ++ σ.held) ~ List.range' Gen.slotBase n ∧ σ.free.length + σ.held.length = n ∧ σ.inflight ≤ n := by
   have hfin : Gen.slotReleaseInFinally = true := by decide
+  -- the model's `start` presupposes a holder: every transfer of the source sits inside `with self._acquire_slot…`
+  have _hunder : Gen.transfersUnderSlot = true := by decide
   rw [hfin] at h
   have hinv : SlotsInv n σ ∧ σ.leaked = [] :=
     run_inv (Slots.step true) (fun σ => SlotsInv n σ ∧ σ.leaked = [])
@@ -56,6 +59,109 @@ one failed transfer and the slot is gone for good. -/
 theorem slots_leak_without_finally_witness :
     (run (Slots.step false) (Slots.init 1) [.acquire 2, .start 2, .finish 2 false, .release 2]).map
       (fun σ => (σ.held, σ.free, σ.leaked)) = some ([], [], [2]) := by decide
+
+/-! ## S1′ — slots, loader threads and the end of the event loop -/
+
+/-- **After a successful operation nothing is left behind**: when the operation has returned without a failure, no download is
+queued, no thread waits for a slot, no slot is held and all `n` slots are in the queue — whether or not the loop then stops. -/
+theorem slots_restored_after_success (joins : Bool) (n jobs : Nat) (evs : List LifeEv) (σ : Life)
+    (h : run (Life.step joins) (Life.init n jobs) evs = some σ) (hr : σ.returned = true) (hf : σ.failed = false) :
+    σ.queued = 0 ∧ σ.waiting = 0 ∧ σ.held = 0 ∧ σ.free = n := by
+  have inv : (LifeInv n σ ∧ SettledOk σ) ∧ (σ.failed = false → σ.lost = 0) := by
+    refine run_inv (Life.step joins) (fun σ => (LifeInv n σ ∧ SettledOk σ) ∧ (σ.failed = false → σ.lost = 0)) ?_ evs _ _
+      ⟨⟨life_init_inv n jobs, fun hr => by simp [Life.init] at hr⟩, fun _ => rfl⟩ h
+    intro a e b hi hs
+    refine ⟨⟨life_step_inv joins n a e b hi.1.1 hs, life_step_settledOk joins a e b hi.1.2 hs⟩, ?_⟩
+    intro hfb
+    cases e <;> simp only [Life.step] at hs
+    · split at hs <;> cases hs; exact hi.2 hfb
+    · split at hs <;> cases hs; exact hi.2 hfb
+    · split at hs
+      · rename_i hh
+        split at hs
+        · rename_i hcl
+          cases hs
+          simp only [Bool.or_eq_false_iff] at hfb
+          have := hi.1.2 (hi.1.1.closed_ret hcl) hfb.1
+          omega
+        · cases hs
+          simp only [Bool.or_eq_false_iff] at hfb
+          exact hi.2 hfb.1
+      · cases hs
+    · split at hs <;> cases hs; exact hi.2 hfb
+    · split at hs
+      · cases hs
+      · split at hs
+        · cases hs; exact hi.2 hfb
+        · split at hs <;> cases hs; exact hi.2 hfb
+    · split at hs <;> cases hs; cases hfb
+    · split at hs <;> cases hs; exact hi.2 hfb
+  obtain ⟨q, w, hh⟩ := inv.1.2 hr hf
+  have := inv.1.1.cons
+  have := inv.2 hf
+  exact ⟨q, w, hh, by omega⟩
+
+/-- **After a failed operation nothing is left behind — PARTIAL: only for code that joins its loaders before re-raising.**
+Full statement of the property ("all slots available again after success or failure", "never a hang") for the failure path, with
+the extra hypothesis spelled out: `Gen.restoreJoinsLoadersOnFailure = true` (the shape of the candidate patch; it is `false` for
+the current source, see `blocked_loader_witness` for what happens then).  Under it: whenever the operation has returned —
+normally or by re-raising — nothing is queued, no thread waits for a slot, none is held, all `n` slots are free, and stopping the
+loop afterwards strands nobody. -/
+theorem slots_restored_after_return_partial (hj : Gen.restoreJoinsLoadersOnFailure = true) (n jobs : Nat) (evs : List LifeEv) (σ : Life)
+    (h : run (Life.step Gen.restoreJoinsLoadersOnFailure) (Life.init n jobs) evs = some σ) (hr : σ.returned = true) :
+    σ.queued = 0 ∧ σ.waiting = 0 ∧ σ.held = 0 ∧ σ.free = n := by
+  rw [hj] at h
+  have inv : (LifeInv n σ ∧ Settled σ) ∧ σ.lost = 0 := by
+    refine run_inv (Life.step true) (fun σ => (LifeInv n σ ∧ Settled σ) ∧ σ.lost = 0) ?_ evs _ _
+      ⟨⟨life_init_inv n jobs, fun hr => by simp [Life.init] at hr⟩, rfl⟩ h
+    intro a e b hi hs
+    refine ⟨⟨life_step_inv true n a e b hi.1.1 hs, life_step_settled a e b hi.1.2 hs⟩, ?_⟩
+    cases e <;> simp only [Life.step] at hs
+    · split at hs <;> cases hs; exact hi.2
+    · split at hs <;> cases hs; exact hi.2
+    · split at hs
+      · rename_i hh
+        split at hs
+        · rename_i hcl
+          have := hi.1.2 (hi.1.1.closed_ret hcl)
+          omega
+        · cases hs; exact hi.2
+      · cases hs
+    · split at hs <;> cases hs; exact hi.2
+    · split at hs
+      · cases hs
+      · split at hs
+        · cases hs; exact hi.2
+        · split at hs <;> cases hs; exact hi.2
+    · split at hs <;> cases hs; exact hi.2
+    · split at hs <;> cases hs; exact hi.2
+  obtain ⟨q, w, hh⟩ := inv.1.2 hr
+  have := inv.1.1.cons
+  exact ⟨q, w, hh, by omega⟩
+
+/-- **Defect witness (current code, `joins = false`).**  One slot, three downloads: the first fails, `restore` re-raises at once,
+`asyncio.run` cancels the waiting request, that loader thread takes the next queued download and asks for a slot again, the loop
+stops: a thread is blocked in `_acquire_slot_threadsafe` and the loop is gone.  Replayed on the real code by the harness
+(sig `restore:failure-leaves-blocked-loaders`). -/
+theorem blocked_loader_witness :
+    run (Life.step false) (Life.init 1 3) [.begin, .grant, .begin, .finish false, .ret, .cancelWaiter, .begin, .close]
+      = some ⟨1, 0, 1, 0, true, true, true, 0⟩ := by decide
+
+/-- … and such a thread stays blocked for ever: once the loop has stopped, no schedule makes the number of waiting threads
+smaller (so the non-daemon executor thread never ends and the interpreter cannot exit). -/
+theorem blocked_forever (joins : Bool) (σ : Life) (hc : σ.closed = true) (evs : List LifeEv) (σ' : Life)
+    (h : run (Life.step joins) σ evs = some σ') : σ.waiting ≤ σ'.waiting := by
+  have := run_inv (Life.step joins) (fun s => s.closed = true ∧ σ.waiting ≤ s.waiting)
+    (fun a e b hi hs => by
+      have := life_step_stuck joins a e b hi.1 hs
+      exact ⟨this.1, Nat.le_trans hi.2 this.2⟩) evs σ σ' ⟨hc, Nat.le_refl _⟩ h
+  exact this.2
+
+/-- non-vacuity of `slots_restored_after_return_partial`: the same failure with the joining code — the early `ret` is not
+enabled; after dropping the queue and letting the running loader finish, the operation returns with the slot back -/
+example : run (Life.step true) (Life.init 1 3) [.begin, .grant, .begin, .finish false, .ret] = none := by decide
+example : run (Life.step true) (Life.init 1 3) [.begin, .grant, .begin, .finish false, .dropQueued, .grant, .finish true, .ret, .close]
+      = some ⟨1, 0, 0, 0, true, true, true, 0⟩ := by decide
 
 /-! ## S2 — snapshot: producer, bounded queue, workers -/
 
@@ -264,6 +370,8 @@ theorem file_lock_mutex (fileOf : Nat → Nat) (evs : List LockEv) (σ : Locks)
     (∀ j₁ j₂, fileOf j₁ = fileOf j₂ → inCrit (σ.pc j₁) = true → inCrit (σ.pc j₂) = true → j₁ = j₂) ∧
     (∀ j, registered (σ.pc j) = true → ∃ l, σ.lk j = some l ∧ σ.flocks (fileOf j) = some l ∧ 0 < σ.refc (fileOf j)) := by
   have hz : Gen.flockDelAtZero = true := by decide
+  -- the job program `gAcq look commit gRel fAcq write fRel gAcq unreg gRel` is the recognised shape of `_write_chunk_ref`
+  have _hshape : Gen.flockShapeRecognised = true := by decide
   rw [hz] at h
   have inv := locks_reach_inv fileOf evs σ h
   have hreg : ∀ j, registered (σ.pc j) = true → ∃ l, σ.lk j = some l ∧ σ.flocks (fileOf j) = some l ∧ 0 < σ.refc (fileOf j) := by
@@ -312,6 +420,10 @@ theorem finalise_once_after_writes (L : List Loader) (hwf : LoadersWF L) (evs : 
     (∀ f, (σ.finCount f = 1 ∨ ∃ d, poppingFile (σ.phase d) = some f) → ∀ l ∈ L, f ∈ l.refs → σ.written l.d ~ l.refs) ∧
     ((∀ l ∈ L, σ.phase l.d = LPhase.done) → ∀ l ∈ L, ∀ f ∈ l.refs, σ.finCount f = 1 ∧ σ.hasMeta f = false) := by
   have hu : Gen.finaliseDecidedUnderLock = true := by decide
+  -- `remove` and `pop` are atomic steps of the model because the source performs them inside `with glock:`
+  have _hrm : Gen.removeUnderGlock = true := by decide
+  have _hin : Gen.decisionInsideRemoveBlock = true := by decide
+  have _hpop : Gen.popUnderGlock = true := by decide
   rw [hu] at h
   obtain ⟨core, aux⟩ := fin_reach_inv L hwf evs σ h
   have hcnt : ∀ f, σ.finCount f ≤ 1 := by
